@@ -25,17 +25,24 @@ def run(chk, repo):
     chk.rule('C03.a', 'R-GUARD: variant.id enters variant_id_map only when not a merged MNV', 2)
     f = repo.func('aa.VariantPeptideIdentifier:create_variant_peptide_id')
     chk.uses(f)
-    cfg = CFG(f.node)
-    sites = [n for n in cfg.nodes if n.kind == 'stmt' and 'variant_id_map[seqname].append(variant.id)' == norm_stmt(n.ast)]
-    for s in sites:
-        fx = G.facts_at(cfg, s.id)
-        chk.ob('C03.a', 'variant.id appended only on the not-merged-MNV branch', repo.loc(f, s.ast), fx.get('variant.is_merged_mnv()') is False,
-               f"facts {fx}: the synthetic 'MNV-...' id (not present in any input GVF) can reach a header", key=f.qual + '::mnv-guard', fn=f.qual)
-    ext = [n for n in cfg.nodes if n.kind == 'stmt' and norm_stmt(n.ast) == "variant_id_map[seqname].extend(variant.attrs['INDIVIDUAL_VARIANT_IDS'])"]
-    ok = len(ext) == 1 and G.facts_at(cfg, ext[0].id).get('variant.is_merged_mnv()') is True and len(sites) == 1
+    from sa import sem
+    nf = sem.nf(repo, f)
+    # ids enter the header map through `<list>.append(<v>.id)`; merged MNVs through their INDIVIDUAL_VARIANT_IDS
+    def id_appends(st):
+        return [c for c in sem.calls_in_stmt(st, 'append') if len(c.args) == 1 and isinstance(c.args[0], ast.Attribute) and c.args[0].attr == 'id'
+                and isinstance(c.args[0].value, ast.Name)]
+    sites = [(st, fx, id_appends(st)[0]) for st, fx in sem.facts_where(nf, lambda st: sem.own_stmt(st) and bool(id_appends(st)))]
+    for st, fx, c in sites:
+        V = c.args[0].value.id
+        chk.ob('C03.a', 'variant.id appended only on the not-merged-MNV branch', f.where, sem.known(fx, f'not {V}.is_merged_mnv()') is True,
+               f"'{norm_stmt(st)}' is reachable for a merged MNV: the synthetic 'MNV-...' id (not present in any input GVF) can reach a header",
+               key=f.qual + '::mnv-guard', fn=f.qual)
+    ext = sem.facts_where(nf, lambda st: sem.own_stmt(st) and 'INDIVIDUAL_VARIANT_IDS' in unparse(st) and (bool(sem.calls_in_stmt(st, 'extend')) or isinstance(st, ast.AugAssign)))
+    def merged_known(st, fx):
+        vs = {n.value.id for n in ast.walk(st) if isinstance(n, ast.Attribute) and n.attr == 'attrs' and isinstance(n.value, ast.Name)}
+        return any(sem.known(fx, f'{v}.is_merged_mnv()') is True for v in vs)
+    ok = len(ext) >= 1 and all(merged_known(st, fx) for st, fx in ext) and len(sites) >= 1
     chk.ob('C03.a', 'merged MNVs contribute their individual input ids', f.where, ok, 'merged-MNV branch altered', key=f.qual + '::mnv-individual', fn=f.qual)
-    other = [w for w in G.writes_in(f.node.body) if 'variant_id_map' in unparse(w[2]) and w[1].startswith('call:') and
-             unparse(w[2]) not in ('variant_id_map[seqname].append(variant.id)', "variant_id_map[seqname].extend(variant.attrs['INDIVIDUAL_VARIANT_IDS'])")]
     mk = repo.func('seqvar.VariantRecord:create_mnv_from_adjacent')
     t = unparse(mk.node)
     chk.uses(mk)
@@ -89,8 +96,16 @@ def run(chk, repo):
                 nm = arg.id
                 binds = [n for n in walk_no_nested(lp) if isinstance(n, ast.Assign) and unparse(n.targets[0]) == nm]
                 mutated = [w for w in G.writes_in(lp.body) if w[0] == nm and w[1].startswith('call:')]
-                fresh = all(isinstance(b.value, (ast.List, ast.ListComp)) or (isinstance(b.value, ast.Constant) and b.value.value is None) or (isinstance(b.value, ast.Call) and unparse(b.value.func) in ('copy.copy', 'list', 'copy.deepcopy'))
-                            for b in binds) and bool(binds)
+                def is_fresh(v, depth=0):
+                    if isinstance(v, (ast.List, ast.ListComp)) or (isinstance(v, ast.Constant) and v.value is None):
+                        return True
+                    if isinstance(v, ast.Call) and unparse(v.func) in ('copy.copy', 'list', 'copy.deepcopy'):
+                        return True
+                    if isinstance(v, ast.Name) and depth < 3 and v.id != nm:
+                        bs = [n for n in walk_no_nested(lp) if isinstance(n, ast.Assign) and unparse(n.targets[0]) == v.id]
+                        return bool(bs) and all(is_fresh(b.value, depth + 1) for b in bs)
+                    return False
+                fresh = all(is_fresh(b.value) for b in binds) and bool(binds)
                 chk.ob('C03.c', f"{h.name}: cursor list '{nm}' is a fresh list/copy per out node", repo.loc(h, c), fresh,
                        f"'{nm}' handed to each outgoing cursor is bound by {[norm_stmt(b) for b in binds]}: sibling cursors alias one list, and the in-place "
                        f"updates {[norm_stmt(repo.enclosing_stmt(m[2])) for m in mutated]} leak variants of one branch into the headers of another",
